@@ -108,46 +108,55 @@ func c07Ann(o *c07Obj, k string) string {
 	return o.Annotations[k]
 }
 
-// c07Monitor checks one sync step. pre = stored objects before, step = writes + stored objects after.
-func c07Monitor(s c07Scn, op c07Op, pre c07Pre, step c07Step) []Mon {
+// c07Monitor checks one sync step.
+//   served = the claim and XR the reconciler's (cached) reads handed to Sync: every
+//            decision the syncer takes, hence every request body, is judged against these;
+//   pre    = the stored objects before the sync, step = writes + stored objects after:
+//            the stored-object clauses are judged against these when the world was quiet
+//            (no third-party write, no failing call, reads not stale); in every other
+//            world c07WorldMon judges each write against the true store around it.
+func c07Monitor(op c07Op, served, pre c07Pre, step c07Step, quiet bool) []Mon {
 	var mons []Mon
 	add := func(sig, why string) { mons = append(mons, Mon{Sig: sig, Why: op.Syncer + ": " + why}) }
+	ns := served.NS
 	if step.Err != "" {
-		// Only the two documented malformed-input errors are expected, and a failing sync
-		// before any write must not have changed anything.
-		if strings.HasPrefix(step.Err, "other:") {
+		// Only the documented malformed-input errors are expected in a quiet world, and a
+		// failing sync before any write must not have changed anything.
+		if strings.HasPrefix(step.Err, "other:") || (quiet && strings.HasPrefix(step.Err, "api:")) {
 			add("C07:unexpected-error", step.Err)
 		}
-		if len(step.Writes) == 0 && (mustJSON(pre.Claim) != mustJSON(step.Claim) || mustJSON(pre.XR) != mustJSON(step.XR)) {
+		if quiet && len(step.Writes) == 0 && (mustJSON(pre.Claim) != mustJSON(step.Claim) || mustJSON(pre.XR) != mustJSON(step.XR)) {
 			add("C07:error-changed-state", "sync returned "+step.Err+" without a write but the store changed")
 		}
-		return mons
 	}
-	cmSpec := c07Map(pre.Claim.Spec)
+	stored := quiet && step.Err == ""
+	cmSpec := c07Map(served.Claim.Spec)
 	if cmSpec == nil {
 		return mons
 	}
 	ssa := op.Syncer == "ssa"
 	post := step.XR
-	if post == nil {
+	if stored && post == nil {
 		add("C07:no-xr-after-sync", "no XR named by the claim's resourceRef exists after a successful sync")
 		return mons
 	}
-	postSpec := c07Map(post.Spec)
-	var preXRSpec, preXRStatus map[string]any
-	if pre.XR != nil {
-		preXRSpec = c07Map(pre.XR.Spec)
-		preXRStatus = c07Map(pre.XR.Status)
+	var postSpec map[string]any
+	if post != nil {
+		postSpec = c07Map(post.Spec)
+	}
+	var preXRSpec map[string]any
+	if served.XR != nil {
+		preXRSpec = c07Map(served.XR.Spec)
 	}
 
 	// ---- the XR write bodies
 	var xrBodies []c07Write
 	for _, w := range step.Writes {
-		if strings.HasPrefix(w.T, "xr.") {
+		if strings.HasPrefix(w.T, "xr.") && w.T != "xr.jsonpatch" {
 			xrBodies = append(xrBodies, w)
 		}
 	}
-	manual := c07Policy(pre.XR) == "Manual"
+	manual := c07Policy(served.XR) == "Manual"
 
 	// ---- claim -> XR
 	for k, v := range cmSpec {
@@ -159,7 +168,7 @@ func c07Monitor(s c07Scn, op c07Op, pre c07Pre, step c07Step) []Mon {
 				}
 			}
 			// stored: equal, except that map values merge with what the XR already holds
-			if !c07Has(postSpec, k) || !c07Contains(postSpec[k], v) {
+			if stored && (!c07Has(postSpec, k) || !c07Contains(postSpec[k], v)) {
 				add("C07:claim-field-not-propagated", "spec."+k+" of the claim did not reach the stored XR")
 			}
 		case c07ClaimOnly:
@@ -168,7 +177,7 @@ func c07Monitor(s c07Scn, op c07Op, pre c07Pre, step c07Step) []Mon {
 					add("C07:claim-only-field-on-xr", "claim-only spec."+k+" asserted by "+w.T)
 				}
 			}
-			if c07Has(postSpec, k) && !c07Has(preXRSpec, k) {
+			if stored && c07Has(postSpec, k) && !c07Has(preXRSpec, k) {
 				add("C07:claim-only-field-on-xr", "claim-only spec."+k+" stored on the XR")
 			}
 		case c07EachSide:
@@ -194,12 +203,35 @@ func c07Monitor(s c07Scn, op c07Op, pre c07Pre, step c07Step) []Mon {
 			}
 		}
 	}
+	// Nothing but claim-derived fields is ever asserted: every top-level spec key of an XR
+	// request body is claimRef (naming the claim) or a user / composition-selection key of
+	// the claim with the claim's value (the revision reference only under Manual).
+	for _, w := range xrBodies {
+		for k, v := range c07Map(w.Body.Spec) {
+			cv, has := cmSpec[k]
+			switch {
+			case k == "claimRef":
+				if cr := c07Map(v); cr["name"] != served.Claim.Name || cr["namespace"] != ns || cr["kind"] != c07ClaimGVK.Kind || cr["apiVersion"] != c07ClaimGVK.GroupVersion().String() {
+					add("C07:claimref-wrong", "the claimRef asserted by "+w.T+" does not name the claim: "+mustJSON(v))
+				}
+			case !has:
+				add("C07:xr-body-field-not-from-claim", "spec."+k+" asserted by "+w.T+" is not a field of the claim")
+			case c07Owner(k) == c07User || c07Owner(k) == c07Shared || (c07Owner(k) == c07Revision && manual):
+				if !c07Eq(cv, v) {
+					add("C07:xr-body-field-not-from-claim", "spec."+k+" asserted by "+w.T+" is not the claim's value")
+				}
+			}
+		}
+		if !c07Has(c07Map(w.Body.Spec), "claimRef") {
+			add("C07:claimref-wrong", w.T+" asserts no claimRef")
+		}
+	}
 	// ---- compositionRevisionRef on the STORED XR, for every value of the XR's update
 	// policy (this sync's inputs only): under Manual the claim's reference reaches the XR;
 	// under Automatic / unset / anything else the XR side owns the field, so the sync may
 	// leave it alone (or drop what the claim controller itself applied earlier) but can
 	// never set it - neither to the claim's value nor to anything else.
-	{
+	if stored {
 		const k = "compositionRevisionRef"
 		pol := c07Policy(pre.XR)
 		if pol == "" {
@@ -223,18 +255,18 @@ func c07Monitor(s c07Scn, op c07Op, pre c07Pre, step c07Step) []Mon {
 			add("C07:claim-only-field-on-xr", "claim-only value in the body of "+w.T)
 		}
 	}
-	if strings.Contains(mustJSON(post), "cm-only-") || strings.Contains(mustJSON(post), "cms-") {
+	if post != nil && (strings.Contains(mustJSON(post), "cm-only-") || strings.Contains(mustJSON(post), "cms-")) {
 		add("C07:claim-only-field-on-xr", "claim-only value stored on the XR")
 	}
 
 	// ---- labels / annotations claim -> XR
 	preLbl := map[string]string{}
 	var preAnn map[string]string
-	if pre.XR != nil {
-		preLbl = pre.XR.Labels
-		preAnn = pre.XR.Annotations
+	if served.XR != nil {
+		preLbl = served.XR.Labels
+		preAnn = served.XR.Annotations
 	}
-	for k, v := range pre.Claim.Labels {
+	for k, v := range served.Claim.Labels {
 		if k == c07LblName || k == c07LblNS {
 			continue
 		}
@@ -245,47 +277,126 @@ func c07Monitor(s c07Scn, op c07Op, pre c07Pre, step c07Step) []Mon {
 					add("C07:reserved-meta-propagated", "reserved label "+k+" asserted by "+w.T)
 				}
 			}
-			if pv, ok := post.Labels[k]; ok && preLbl[k] != pv {
+			if pv, ok := post.labelsOf()[k]; stored && ok && preLbl[k] != pv {
 				add("C07:reserved-meta-propagated", "reserved label "+k+" stored on the XR")
 			}
-		} else if post.Labels[k] != v {
-			add("C07:meta-not-propagated", "label "+k+" of the claim did not reach the XR")
+		} else {
+			for _, w := range xrBodies {
+				if w.Body.Labels[k] != v {
+					add("C07:meta-not-propagated", "label "+k+" of the claim is not asserted by "+w.T)
+				}
+			}
+			if stored && post.Labels[k] != v {
+				add("C07:meta-not-propagated", "label "+k+" of the claim did not reach the XR")
+			}
 		}
 	}
-	if post.Labels[c07LblName] != pre.Claim.Name || post.Labels[c07LblNS] != c07NS {
+	for _, w := range xrBodies {
+		if w.Body.Labels[c07LblName] != served.Claim.Name || w.Body.Labels[c07LblNS] != ns {
+			add("C07:claim-labels-wrong", w.T+" does not assert the claim-name/claim-namespace labels of the claim")
+		}
+	}
+	if stored && (post.Labels[c07LblName] != pre.Claim.Name || post.Labels[c07LblNS] != ns) {
 		add("C07:claim-labels-wrong", "the XR does not carry the claim-name/claim-namespace labels of its claim")
 	}
-	for k, v := range pre.Claim.Annotations {
+	for k, v := range served.Claim.Annotations {
 		if c07Reserved(k) {
 			for _, w := range xrBodies {
 				if bv, ok := w.Body.Annotations[k]; ok && (ssa || preAnn[k] != bv) {
 					add("C07:reserved-meta-propagated", "reserved annotation "+k+" asserted by "+w.T)
 				}
 			}
-			if pv, ok := post.Annotations[k]; ok && preAnn[k] != pv {
+			if pv, ok := post.annsOf()[k]; stored && ok && preAnn[k] != pv {
 				add("C07:reserved-meta-propagated", "reserved annotation "+k+" stored on the XR")
 			}
-		} else if k == c07ExtName && c07Ann(pre.XR, c07ExtName) != "" {
+		} else if k == c07ExtName && c07Ann(served.XR, c07ExtName) != "" {
 			// the XR's existing external name wins (checked below)
-		} else if post.Annotations[k] != v {
-			add("C07:meta-not-propagated", "annotation "+k+" of the claim did not reach the XR")
+		} else {
+			for _, w := range xrBodies {
+				if w.Body.Annotations[k] != v {
+					add("C07:meta-not-propagated", "annotation "+k+" of the claim is not asserted by "+w.T)
+				}
+			}
+			if stored && post.Annotations[k] != v {
+				add("C07:meta-not-propagated", "annotation "+k+" of the claim did not reach the XR")
+			}
+		}
+	}
+	// an external name the XR (as read) already has is what every request body asserts
+	if en := c07Ann(served.XR, c07ExtName); en != "" {
+		for _, w := range xrBodies {
+			if w.Body.Annotations[c07ExtName] != en {
+				add("C07:external-name-changed", w.T+" asserts the external name "+w.Body.Annotations[c07ExtName]+" although the XR already has "+en)
+			}
+		}
+	}
+	// Nothing but claim-derived metadata: a label / annotation of a request body is the
+	// claim's (not reserved), one of the two claim labels, the XR's existing external
+	// name, or (client-side: the body is the whole XR) what the XR already held.
+	for _, w := range xrBodies {
+		for k, v := range w.Body.Labels {
+			switch {
+			case k == c07LblName || k == c07LblNS:
+			case !c07Reserved(k) && served.Claim.Labels[k] == v && c07HasStr(served.Claim.Labels, k):
+			case !ssa && c07HasStr(preLbl, k) && preLbl[k] == v:
+			default:
+				add("C07:xr-body-meta-not-from-claim", "label "+k+"="+v+" asserted by "+w.T+" comes neither from the claim nor (client-side) from the XR")
+			}
+		}
+		for k, v := range w.Body.Annotations {
+			switch {
+			case k == c07ExtName && c07Ann(served.XR, c07ExtName) == v:
+			case !c07Reserved(k) && c07HasStr(served.Claim.Annotations, k) && served.Claim.Annotations[k] == v:
+			case !ssa && c07HasStr(preAnn, k) && preAnn[k] == v:
+			default:
+				add("C07:xr-body-meta-not-from-claim", "annotation "+k+"="+v+" asserted by "+w.T+" comes neither from the claim nor (client-side) from the XR")
+			}
 		}
 	}
 
-	// ---- what the XR side owns is preserved
-	for _, k := range []string{"resourceRefs", "writeConnectionSecretToRef", "publishConnectionDetailsTo"} {
-		if c07Has(preXRSpec, k) != c07Has(postSpec, k) || !c07Eq(preXRSpec[k], postSpec[k]) {
-			add("C07:xr-owned-field-changed", "spec."+k+" of the XR changed across the sync")
-		}
-		if ssa {
+	// ---- what the XR side owns is never asserted by server-side apply
+	if ssa {
+		for _, k := range []string{"resourceRefs", "writeConnectionSecretToRef", "publishConnectionDetailsTo"} {
 			for _, w := range xrBodies {
 				if c07Has(c07Map(w.Body.Spec), k) {
 					add("C07:ssa-asserts-xr-owned-field", "the server-side apply body asserts spec."+k)
 				}
 			}
 		}
+		for _, w := range xrBodies {
+			if w.Body.Status != nil {
+				add("C07:ssa-asserts-xr-owned-field", "the server-side apply body carries a status")
+			}
+		}
 	}
-	if cr := c07Map(postSpec["claimRef"]); cr["name"] != pre.Claim.Name || cr["namespace"] != c07NS || cr["kind"] != c07ClaimGVK.Kind {
+	// ---- claim write bodies: never XR machinery (markers), in any world
+	for _, w := range step.Writes {
+		if !strings.HasPrefix(w.T, "claim.") {
+			continue
+		}
+		if j := mustJSON(w.Body); strings.Contains(j, "xrs-") {
+			add("C07:xr-status-machinery-on-claim", "an XR status machinery value in the body of "+w.T)
+		} else if strings.Contains(j, "xr-only-") {
+			add("C07:xr-only-field-on-claim", "an XR-only machinery value in the body of "+w.T)
+		}
+	}
+	if j := mustJSON(step.Claim); strings.Contains(j, "xrs-") {
+		add("C07:xr-status-machinery-on-claim", "an XR status machinery value is stored on the claim")
+	} else if strings.Contains(j, "xr-only-") {
+		add("C07:xr-only-field-on-claim", "an XR-only machinery value is stored on the claim")
+	}
+	if !stored {
+		return mons
+	}
+
+	// ================= stored objects, quiet world =================
+	// ---- what the XR side owns is preserved
+	for _, k := range []string{"resourceRefs", "writeConnectionSecretToRef", "publishConnectionDetailsTo"} {
+		if c07Has(preXRSpec, k) != c07Has(postSpec, k) || !c07Eq(preXRSpec[k], postSpec[k]) {
+			add("C07:xr-owned-field-changed", "spec."+k+" of the XR changed across the sync")
+		}
+	}
+	if cr := c07Map(postSpec["claimRef"]); cr["name"] != pre.Claim.Name || cr["namespace"] != ns || cr["kind"] != c07ClaimGVK.Kind || cr["apiVersion"] != c07ClaimGVK.GroupVersion().String() {
 		add("C07:claimref-wrong", "the XR's claimRef does not name the claim")
 	}
 	if en := c07Ann(pre.XR, c07ExtName); en != "" && c07Ann(post, c07ExtName) != en {
@@ -294,12 +405,31 @@ func c07Monitor(s c07Scn, op c07Op, pre c07Pre, step c07Step) []Mon {
 	if pre.XR != nil && !c07Eq(pre.XR.Status, post.Status) {
 		add("C07:xr-owned-field-changed", "the XR's status changed across the sync")
 	}
-	if ssa {
-		for _, w := range xrBodies {
-			if w.Body.Status != nil {
-				add("C07:ssa-asserts-xr-owned-field", "the server-side apply body carries a status")
-			}
+	// the stored XR's metadata: what was there, what the claim has, nothing else
+	for k, v := range post.Labels {
+		switch {
+		case k == c07LblName || k == c07LblNS:
+		case c07HasStr(preLbl, k) && preLbl[k] == v:
+		case !c07Reserved(k) && c07HasStr(pre.Claim.Labels, k) && pre.Claim.Labels[k] == v:
+		default:
+			add("C07:unexpected-xr-meta", "label "+k+"="+v+" of the stored XR comes neither from the XR nor from the claim")
 		}
+	}
+	for k, v := range post.Annotations {
+		switch {
+		case c07HasStr(preAnn, k) && preAnn[k] == v:
+		case !c07Reserved(k) && c07HasStr(pre.Claim.Annotations, k) && pre.Claim.Annotations[k] == v:
+		default:
+			add("C07:unexpected-xr-meta", "annotation "+k+"="+v+" of the stored XR comes neither from the XR nor from the claim")
+		}
+	}
+	// the XR the claim is bound to: the one it referenced, else the generated name
+	wantName := c07XRNameOf(pre.Claim)
+	if wantName == "" {
+		wantName = op.Gen
+	}
+	if post.Name != wantName {
+		add("C07:resourceref-rebound", "the claim referenced the XR "+wantName+" (or was to create it) but is bound to "+post.Name+" after the sync")
 	}
 
 	// ---- XR -> claim
@@ -320,11 +450,12 @@ func c07Monitor(s c07Scn, op c07Op, pre c07Pre, step c07Step) []Mon {
 			add("C07:xr-status-machinery-on-claim", "status."+k+" appeared on the claim")
 		}
 	}
-	if j := mustJSON(pc); strings.Contains(j, "xrs-") {
-		add("C07:xr-status-machinery-on-claim", "an XR status machinery value is stored on the claim")
+	// ... and the claim keeps it: its own conditions and its own lastPublishedTime survive
+	if v, ok := preStatus["conditions"]; ok && !c07Eq(pcStatus["conditions"], v) {
+		add("C07:claim-status-machinery-lost", "the claim's own status.conditions did not survive the sync")
 	}
-	if j := mustJSON(pc); strings.Contains(j, "xr-only-") {
-		add("C07:xr-only-field-on-claim", "an XR-only machinery value is stored on the claim")
+	if t, ok := c07Map(preStatus["connectionDetails"])["lastPublishedTime"]; ok && !c07Eq(c07Map(pcStatus["connectionDetails"])["lastPublishedTime"], t) {
+		add("C07:claim-status-machinery-lost", "the claim's own status.connectionDetails.lastPublishedTime did not survive the sync")
 	}
 	// user status fields reach the claim
 	postXRStatus := c07Map(post.Status)
@@ -351,7 +482,6 @@ func c07Monitor(s c07Scn, op c07Op, pre c07Pre, step c07Step) []Mon {
 			}
 		}
 	}
-	_ = preXRStatus
 	// claim spec: nothing but the documented back-propagation
 	auto := c07Policy(post) == "Automatic"
 	if ssa {
@@ -365,8 +495,8 @@ func c07Monitor(s c07Scn, op c07Op, pre c07Pre, step c07Step) []Mon {
 		old, had := cmSpec[k]
 		switch {
 		case k == "resourceRef":
-			if r := c07Map(v); r["name"] != post.Name || r["kind"] != c07XRGVK.Kind {
-				add("C07:resourceref-wrong", "the claim's resourceRef does not name its XR")
+			if r := c07Map(v); r["name"] != post.Name || r["kind"] != c07XRGVK.Kind || r["apiVersion"] != c07XRGVK.GroupVersion().String() {
+				add("C07:resourceref-wrong", "the claim's resourceRef does not name its XR: "+mustJSON(v))
 			}
 		case k == "compositionRef" && !had:
 			if !c07Has(refXR, k) || !c07Eq(refXR[k], v) {
@@ -446,6 +576,26 @@ func c07Monitor(s c07Scn, op c07Op, pre c07Pre, step c07Step) []Mon {
 		}
 	}
 	return mons
+}
+
+func c07HasStr(m map[string]string, k string) bool {
+	_, ok := m[k]
+	return ok
+}
+
+// nil-safe accessors
+func (o *c07Obj) labelsOf() map[string]string {
+	if o == nil {
+		return nil
+	}
+	return o.Labels
+}
+
+func (o *c07Obj) annsOf() map[string]string {
+	if o == nil {
+		return nil
+	}
+	return o.Annotations
 }
 
 // c07StripEmpty removes mergo-"empty" leaves (the client-side merge may fill
